@@ -613,7 +613,7 @@ theorem consumeP_some (hR : Rep env s) (ha : s.active = some r) (n : Nat) (exact
       env' "payload" = some (.bytes data) ∧ Frame ["payload"] env env' := by
   obtain ⟨f1, f2, f3, f4⟩ := consume_fields r n exact
   have hq := hR.req r ha
-  refine ⟨?e, ?h1, ?h2, ?h3, ?h4⟩
+  refine ⟨?_, ?h1, ?h2, ?h3, ?h4⟩
   case h1 =>
     simp [consumeP, reqOf_rep hq, hR.log, hn]
     rfl
@@ -762,7 +762,7 @@ theorem standby_agrees (s : State) (env : Env) (allowed : Nat) (hR : Rep env s)
     have hd' := hd m hs
     by_cases hle : m.data.length ≤ allowed
     · by_cases hff : s.txState = .ffStandby
-      · refine ⟨?e, ?h1, ?h2, ?h3, ?h4⟩
+      · refine ⟨?_, ?h1, ?h2, ?h3, ?h4⟩
         case h1 =>
           simp [Src.TransportLayerLogic_p_process_tx__standby, execBlock, execStmt, eval, evalArgs, h, hd', ha,
             builtin_len_bytes, evalCmp_le_pint, hle, set_get, hR.txState, hR.consts.ffStandby, hR.consts.waitFc, pvEq_txSt, hff,
@@ -945,7 +945,7 @@ theorem tcf_frame_stmt (s : State) (env : Env) (payload : Bytes) (hR : Rep env s
     | some msg =>
       simp only
       simp only [List.append_assoc, List.cons_append, List.nil_append] at hm
-      refine ⟨?e, ?h1, ?h2, ?h3, ?h4⟩
+      refine ⟨?_, ?h1, ?h2, ?h3, ?h4⟩
       case h1 =>
         simp [tcfFrameStmt, nth, thenOf, Src.TransportLayerLogic_p_process_tx__transmit_cf, execStmt, execBlock, eval, evalArgs, hp,
           builtin_len_bytes, evalCmp_gt_pint, hl, bi_none, fn_prefix, fn_bytearray, fn_arb0, fn_make_tx_msg, hR.txSeq,
@@ -998,7 +998,7 @@ theorem tcf_tail_stmt (s : State) (env : Env) (r' : Req) (rbs : Nat) (hR : Rep e
     by_cases hc : (rbs ≠ 0 && decide (s.txBlockCnt ≥ rbs)) = true
     · simp only [hc, if_true]
       simp only [Bool.and_eq_true, decide_eq_true_eq] at hc
-      refine ⟨?e, ?h1, ?h2, ?h3, ?h4⟩
+      refine ⟨?_, ?h1, ?h2, ?h3, ?h4⟩
       case h1 =>
         simp [tcfTailStmt, nth, thenOf, Src.TransportLayerLogic_p_process_tx__transmit_cf, execStmt, execBlock, eval, evalArgs,
           bi_none, fn_depleted, genDepleted_rep hq, hd, hrb, hR.txBlockCnt, evalCmp_ge_pint, hc.1, hc.2, hR.consts.waitFc,
@@ -1241,5 +1241,931 @@ theorem transmit_cf_agrees (s : State) (env : Env) (allowed : Nat) (hR : Rep env
       · rw [ite_false hc (by simp [ht])]
         simp only [ht, if_false, Bool.false_eq_true]
         exact ⟨env, block_nil _ _, hR, ho, hi, Frame.refl _ _⟩
+
+/-! ### header bytes -/
+
+theorem shr_ev (x : Nat) (k : Int) (hk : 0 ≤ k) : evalBinop .shr (pint x) (pint k) = .ok (pint ((x >>> k.toNat : Nat))) := by
+  rw [evalBinop_shr _ _ (Int.natCast_nonneg _) hk]; simp
+theorem band_ev (x : Nat) (k : Int) (hk : 0 ≤ k) : evalBinop .band (pint x) (pint k) = .ok (pint ((x &&& k.toNat : Nat))) := by
+  rw [evalBinop_band _ _ (Int.natCast_nonneg _) hk]; simp
+theorem bor_lit (k : Int) (hk : 0 ≤ k) (y : Nat) : evalBinop .bor (pint k) (pint y) = .ok (pint ((k.toNat ||| y : Nat))) := by
+  rw [evalBinop_bor _ _ hk (Int.natCast_nonneg _)]; simp
+
+theorem shr8 (x : Nat) : x >>> 8 = x / 256 := by simp [Nat.shiftRight_eq_div_pow]
+theorem shr16 (x : Nat) : x >>> 16 = x / 65536 := by simp [Nat.shiftRight_eq_div_pow]
+theorem shr24 (x : Nat) : x >>> 24 = x / 16777216 := by simp [Nat.shiftRight_eq_div_pow]
+
+/-- `0x10 | ((L >> 8) & 0xF)` is the model's `0x10 + L / 256 % 16` -/
+theorem ff_hi (L : Nat) : 16 ||| ((L >>> 8) &&& 15) = 16 + L / 256 % 16 := by
+  rw [and_f, shr8, or_eq_add 16 _ 4 (by decide) (by simpa using Nat.mod_lt _ (by decide))]
+
+theorem mapM_sc (xs : List Sc) :
+    (xs.map PV.sc).mapM (fun v => match v with | .sc s => Except.ok s | _ => Except.error (PErr.unsupported "non-scalar list element"))
+      = (Except.ok xs : Except PErr (List Sc)) := by
+  induction xs with
+  | nil => rfl
+  | cons x xs ih => simp [List.mapM_cons, ih]
+
+/-- `[0x10 | ((self.tx_frame_length >> 8) & 0xF), self.tx_frame_length & 0xFF]` -/
+theorem hdr12_eval (M : Meths) (env : Env) (L : Nat) (h : env "self.tx_frame_length" = some (pint L)) :
+    eval M env (.lst (.cons (.binop .bor (.int (16)) (.binop .band (.binop .shr (.var "self.tx_frame_length") (.int (8))) (.int (15))))
+      (.cons (.binop .band (.var "self.tx_frame_length") (.int (255))) .nil))) =
+    .ok (.list [.py (.int ((16 + L / 256 % 16 : Nat) : Int)), .py (.int ((L % 256 : Nat) : Int))]) := by
+  have e := mapM_sc [.py (.int ((16 + L / 256 % 16 : Nat) : Int)), .py (.int ((L % 256 : Nat) : Int))]
+  simp only [List.map] at e
+  simp only [eval, evalArgs, h, ok_bind, shr_ev _ 8 (by decide), band_ev _ 15 (by decide), band_ev _ 255 (by decide),
+    bor_lit 16 (by decide), Int.reduceToNat, ff_hi, and_ff]
+  exact congrArg (fun x => x >>= fun scs => Except.ok (PV.list scs)) e
+
+theorem bytesOfScs_two (a b : Nat) (ha : a ≤ 255) (hb : b ≤ 255) :
+    bytesOfScs [.py (.int (a : Int)), .py (.int (b : Int))] = .ok [u8 a, u8 b] := by
+  have ha' : (a : Int) ≤ 255 := by omega
+  have hb' : (b : Int) ≤ 255 := by omega
+  simp [bytesOfScs, Sc.isInt, Sc.intVal, PyVal.isInt, PyVal.intVal, ha', hb', u8]
+
+/-- `bytearray([...])` of small naturals -/
+theorem bytesOfScs_nats (xs : List Nat) (h : ∀ x ∈ xs, x ≤ 255) :
+    bytesOfScs (xs.map fun n : Nat => Sc.py (.int (n : Int))) = .ok (xs.map u8) := by
+  induction xs with
+  | nil => rfl
+  | cons x xs ih =>
+    have hx : (x : Int) ≤ 255 := by have := h x (by simp); omega
+    have ih' := ih (fun y hy => h y (by simp [hy]))
+    simp only [List.map] at ih' ⊢
+    simp [bytesOfScs, Sc.isInt, Sc.intVal, PyVal.isInt, PyVal.intVal, hx, u8, ih']
+
+/-- `[0x10, 0x00, (L >> 24) & 0xFF, (L >> 16) & 0xFF, (L >> 8) & 0xFF, (L >> 0) & 0xFF]` -/
+theorem hdr32_eval (M : Meths) (env : Env) (L : Nat) (h : env "self.tx_frame_length" = some (pint L)) :
+    eval M env (.lst (.cons (.int (16)) (.cons (.int (0))
+      (.cons (.binop .band (.binop .shr (.var "self.tx_frame_length") (.int (24))) (.int (255)))
+      (.cons (.binop .band (.binop .shr (.var "self.tx_frame_length") (.int (16))) (.int (255)))
+      (.cons (.binop .band (.binop .shr (.var "self.tx_frame_length") (.int (8))) (.int (255)))
+      (.cons (.binop .band (.binop .shr (.var "self.tx_frame_length") (.int (0))) (.int (255))) .nil))))))) =
+    .ok (.list ([16, 0, L / 16777216 % 256, L / 65536 % 256, L / 256 % 256, L % 256].map fun n : Nat => Sc.py (.int (n : Int)))) := by
+  have e := mapM_sc ([16, 0, L / 16777216 % 256, L / 65536 % 256, L / 256 % 256, L % 256].map fun n : Nat => Sc.py (.int (n : Int)))
+  simp only [List.map] at e
+  simp only [eval, evalArgs, h, ok_bind, shr_ev _ 24 (by decide), shr_ev _ 16 (by decide), shr_ev _ 8 (by decide),
+    shr_ev _ 0 (by decide), band_ev _ 255 (by decide), Int.reduceToNat, and_ff, shr8, shr16, shr24, Nat.shiftRight_zero, List.map]
+  exact congrArg (fun x => x >>= fun scs => Except.ok (PV.list scs)) e
+
+/-- `[0x0 | len(payload)]` -/
+theorem hdrSf1_eval (M : Meths) (env : Env) (p : Bytes) (h : env "payload" = some (.bytes p)) :
+    eval M env (.lst (.cons (.binop .bor (.int (0)) (.call "len" (.cons (.var "payload") .nil))) .nil)) =
+    .ok (.list ([p.length].map fun n : Nat => Sc.py (.int (n : Int)))) := by
+  have e := mapM_sc ([p.length].map fun n : Nat => Sc.py (.int (n : Int)))
+  simp only [List.map] at e
+  simp only [eval, evalArgs, h, ok_bind, builtin_len_bytes, bor_lit 0 (by decide), Int.reduceToNat, Nat.zero_or, List.map]
+  exact congrArg (fun x => x >>= fun scs => Except.ok (PV.list scs)) e
+
+/-- `[0x0, len(payload)]` -/
+theorem hdrSf2_eval (M : Meths) (env : Env) (p : Bytes) (h : env "payload" = some (.bytes p)) :
+    eval M env (.lst (.cons (.int (0)) (.cons (.call "len" (.cons (.var "payload") .nil)) .nil))) =
+    .ok (.list ([0, p.length].map fun n : Nat => Sc.py (.int (n : Int)))) := by
+  have e := mapM_sc ([0, p.length].map fun n : Nat => Sc.py (.int (n : Int)))
+  simp only [List.map] at e
+  simp only [eval, evalArgs, h, ok_bind, builtin_len_bytes, List.map]
+  exact congrArg (fun x => x >>= fun scs => Except.ok (PV.list scs)) e
+
+/-- `msg_data = self.address.get_tx_payload_prefix() + bytearray([...]) + payload` -/
+theorem assign_msg_data (c : Cfg) (a : Addr) (now : Nat) (rl : Limiter) (env : Env) (lst : PExpr) (xs : List Nat) (payload : Bytes)
+    (hl : eval (txMeths c a now rl) env lst = .ok (.list (xs.map fun n : Nat => Sc.py (.int (n : Int)))))
+    (hx : ∀ x ∈ xs, x ≤ 255) (hp : env "payload" = some (.bytes payload)) :
+    execStmt (txMeths c a now rl) env (.assign "msg_data" (.binop .add (.binop .add (.call "self.address.get_tx_payload_prefix" .nil)
+      (.call "bytearray" (.cons lst .nil))) (.var "payload"))) =
+    .ok (.next (env.set "msg_data" (.bytes (a.tx.txPrefix ++ xs.map u8 ++ payload)))) := by
+  simp only [execStmt, eval, evalArgs, hl, hp, ok_bind, bi_none _ _ (by decide : "self.address.get_tx_payload_prefix" ∉ _),
+    bi_none _ _ (by decide : "bytearray" ∉ _), fn_prefix, fn_bytearray, bytesOfScs_nats xs hx, map_ok, add_bytes]
+
+/-! ## 3. Regions `before_start` and `start_tx` -/
+
+/-- `size_on_first_byte` as the three statements of `before_start` compute it -/
+def sizeOnFirstM (s : State) (r : Req) : Bool :=
+  decide (r.remaining + s.txPrefixLen ≤ 7) && !(match s.cfg.txMinLen with | some m => decide (m > 8) | none => false)
+
+/-- `State.startTx`, with the way it ends made explicit -/
+def startTxR (s : State) (r : Req) (allowed : Nat) : Outcome :=
+  let pl := s.txPrefixLen
+  let off := if sizeOnFirstM s r then 1 else 2
+  let total := r.size
+  if total + off + pl ≤ s.cfg.txDl then
+    match s.consumeActive r total true with
+    | (s1, _, none) => .badGen s1
+    | (s1, _, some payload) =>
+      let hdr : Bytes := if sizeOnFirstM s r then [u8 payload.length] else [0, u8 payload.length]
+      let msgData := s1.addr.tx.txPrefix ++ hdr ++ payload
+      match makeTxMsg s1.cfg s1.addr (s1.addr.tx.txId r.tat) msgData with
+      | none => .raised s1 .ValueError
+      | some msg =>
+        if msgData.length > allowed then .done { s1 with standby := some msg, txState := .sfStandby } none false
+        else .done (s1.stopSending true) (some msg) false
+  else
+    let s0 := { s with txFrameLen := total }
+    let short := total ≤ 0xFFF
+    let dataLen := if short then s0.cfg.txDl - 2 - pl else s0.cfg.txDl - 6 - pl
+    match s0.consumeActive r dataLen true with
+    | (s1, _, none) => .badGen s1
+    | (s1, _, some payload) =>
+      let hdr : Bytes :=
+        if short then [u8 (0x10 + total / 256 % 16), u8 (total % 256)]
+        else [0x10, 0x00, u8 (total / 16777216 % 256), u8 (total / 65536 % 256), u8 (total / 256 % 256), u8 (total % 256)]
+      let msgData := s1.addr.tx.txPrefix ++ hdr ++ payload
+      let s2 := { s1 with txSeq := 1 }
+      match makeTxMsg s2.cfg s2.addr (s2.addr.tx.txId .physical) msgData with
+      | none => .raised s2 .ValueError
+      | some msg =>
+        if msgData.length ≤ allowed then .done (({ s2 with txState := .waitFc }).startRxFcTimer) (some msg) false
+        else .done { s2 with standby := some msg, txState := .ffStandby } none false
+
+/-- what `startTx` returns for each way of ending: a `BadGeneratorError` is caught by the `try` around the region
+    (`_trigger_error(e); _stop_sending(success=False)`), a `ValueError` escapes -/
+def startFin : Outcome → State × Option CanMsg
+  | .raised s' e => (s'.raise e, none)
+  | .badGen s' => ((s'.error .BadGenerator).stopSending false, none)
+  | .done s' out _ => (s', out)
+
+/-- the model's function in terms of `startTxR` -/
+theorem startTx_eq (s : State) (r : Req) (allowed : Nat) : s.startTx r allowed = startFin (startTxR s r allowed) := by
+  unfold State.startTx startTxR sizeOnFirstM
+  simp only
+  cases hm : s.cfg.txMinLen <;> simp only <;>
+  · rcases s.consumeActive r r.size true with ⟨s1, r', res⟩
+    rcases ({ s with txFrameLen := r.size } : State).consumeActive r
+      (if r.size ≤ 4095 then s.cfg.txDl - 2 - s.txPrefixLen else s.cfg.txDl - 6 - s.txPrefixLen) true with ⟨s1', r'', res'⟩
+    cases res <;> cases res' <;> simp only <;> repeat' split
+    all_goals first | rfl | (simp_all; done) | (simp_all [startFin]; done)
+abbrev BS : PBlock := Src.TransportLayerLogic_p_process_tx__before_start
+
+/-- `Rep` / `Frame` after assignments to locals only -/
+macro "rep_locals" hR:ident : tactic =>
+  `(tactic| repeat (first | exact $hR | refine Rep.setOther ?_ (by decide) _))
+macro "frame_locals" : tactic =>
+  `(tactic| repeat (first | exact Frame.refl _ _ | refine Frame.set ?_ (.inr (by decide)) _))
+
+/-- **`before_start`**: the three statements compute the model's `sizeOnFirst` and `off` of `startTx` -/
+theorem before_start_agrees (s : State) (env : Env) (r : Req) (hR : Rep env s) (ha : s.active = some r)
+    (hle : r.consumed ≤ r.size) :
+    ∃ env', execBlock (txM s) env BS = .ok (.next env') ∧ Rep env' s ∧
+      env' "size_on_first_byte" = some (pbool (sizeOnFirstM s r)) ∧
+      env' "size_offset" = some (pint (if sizeOnFirstM s r then 1 else 2)) ∧
+      Frame ["size_on_first_byte", "size_offset"] env env' := by
+  have hq := hR.req r ha
+  have hrem := genRemaining_rep hq hle
+  have hml := hR.txMinLen
+  unfold sizeOnFirstM
+  by_cases h7 : r.remaining + s.txPrefixLen ≤ 7
+  · have h7' : (r.remaining : Int) + (s.addr.tx.txPrefix.length : Int) ≤ 7 := by unfold State.txPrefixLen at h7; omega
+    cases hm : s.cfg.txMinLen with
+    | none =>
+      simp only [hm, optPV] at hml
+      refine ⟨?_, ?h1, ?h2, ?h3, ?h4, ?h5⟩
+      case h1 =>
+        simp [BS, Src.TransportLayerLogic_p_process_tx__before_start, execBlock, execStmt, eval, evalArgs, bi_none, fn_remaining,
+          hrem, fn_prefix, builtin_len_bytes, evalCmp_le_pint, h7', hml, set_get]
+        rfl
+      case h2 => rep_locals hR
+      case h3 => simp [set_get, h7]
+      case h4 => simp [set_get, h7]
+      case h5 => frame_locals
+    | some m =>
+      simp only [hm, optPV] at hml
+      by_cases h8 : m > 8
+      · have h8' : (8 : Int) < (m : Int) := by omega
+        refine ⟨?_, ?h1, ?h2, ?h3, ?h4, ?h5⟩
+        case h1 =>
+          simp [BS, Src.TransportLayerLogic_p_process_tx__before_start, execBlock, execStmt, eval, evalArgs, bi_none, fn_remaining,
+            hrem, fn_prefix, builtin_len_bytes, evalCmp_le_pint, evalCmp_gt_pint, h7', hml, set_get, h8']
+          rfl
+        case h2 => rep_locals hR
+        case h3 => simp [set_get, h7, h8]
+        case h4 => simp [set_get, h7, h8]
+        case h5 => frame_locals
+      · have h8' : ¬ (8 : Int) < (m : Int) := by omega
+        refine ⟨?_, ?h1, ?h2, ?h3, ?h4, ?h5⟩
+        case h1 =>
+          simp [BS, Src.TransportLayerLogic_p_process_tx__before_start, execBlock, execStmt, eval, evalArgs, bi_none, fn_remaining,
+            hrem, fn_prefix, builtin_len_bytes, evalCmp_le_pint, evalCmp_gt_pint, h7', hml, set_get, h8']
+          rfl
+        case h2 => rep_locals hR
+        case h3 => simp [set_get, h7, h8]
+        case h4 => simp [set_get, h7, h8]
+        case h5 => frame_locals
+  · have h7' : ¬ (r.remaining : Int) + (s.addr.tx.txPrefix.length : Int) ≤ 7 := by unfold State.txPrefixLen at h7; omega
+    cases hm : s.cfg.txMinLen with
+    | none =>
+      simp only [hm, optPV] at hml
+      refine ⟨?_, ?h1, ?h2, ?h3, ?h4, ?h5⟩
+      case h1 =>
+        simp [BS, Src.TransportLayerLogic_p_process_tx__before_start, execBlock, execStmt, eval, evalArgs, bi_none, fn_remaining,
+          hrem, fn_prefix, builtin_len_bytes, evalCmp_le_pint, h7', hml, set_get]
+        rfl
+      case h2 => rep_locals hR
+      case h3 => simp [set_get, h7]
+      case h4 => simp [set_get, h7]
+      case h5 => frame_locals
+    | some m =>
+      simp only [hm, optPV] at hml
+      by_cases h8 : m > 8
+      · have h8' : (8 : Int) < (m : Int) := by omega
+        refine ⟨?_, ?h1, ?h2, ?h3, ?h4, ?h5⟩
+        case h1 =>
+          simp [BS, Src.TransportLayerLogic_p_process_tx__before_start, execBlock, execStmt, eval, evalArgs, bi_none, fn_remaining,
+            hrem, fn_prefix, builtin_len_bytes, evalCmp_le_pint, evalCmp_gt_pint, h7', hml, set_get, h8']
+          rfl
+        case h2 => rep_locals hR
+        case h3 => simp [set_get, h7, h8]
+        case h4 => simp [set_get, h7, h8]
+        case h5 => frame_locals
+      · have h8' : ¬ (8 : Int) < (m : Int) := by omega
+        refine ⟨?_, ?h1, ?h2, ?h3, ?h4, ?h5⟩
+        case h1 =>
+          simp [BS, Src.TransportLayerLogic_p_process_tx__before_start, execBlock, execStmt, eval, evalArgs, bi_none, fn_remaining,
+            hrem, fn_prefix, builtin_len_bytes, evalCmp_le_pint, evalCmp_gt_pint, h7', hml, set_get, h8']
+          rfl
+        case h2 => rep_locals hR
+        case h3 => simp [set_get, h7, h8]
+        case h4 => simp [set_get, h7, h8]
+        case h5 => frame_locals
+
+abbrev ST : PBlock := Src.TransportLayerLogic_p_process_tx__start_tx
+
+def drop : PBlock → Nat → PBlock
+  | b, 0 => b
+  | .nil, _ + 1 => .nil
+  | .cons _ r, n + 1 => drop r n
+
+/-- Single Frame branch / First Frame branch of the `try` body -/
+def stSF : PBlock := thenOf (nth ST 1)
+def stFF : PBlock := elseOf (nth ST 1)
+
+/-- end of the Single Frame branch: `_make_tx_msg`, then standby or emission -/
+def sfFinM (s1 : State) (tat : Tat) (md : Bytes) (allowed : Nat) : Outcome :=
+  match makeTxMsg s1.cfg s1.addr (s1.addr.tx.txId tat) md with
+  | none => .raised s1 .ValueError
+  | some msg =>
+    if md.length > allowed then .done { s1 with standby := some msg, txState := .sfStandby } none false
+    else .done (s1.stopSending true) (some msg) false
+
+theorem sf_finish (s1 : State) (env : Env) (r1 : Req) (md : Bytes) (allowed : Nat) (hR : Rep env s1)
+    (ha : s1.active = some r1) (hmd : env "msg_data" = some (.bytes md))
+    (hal : env "allowed_bytes" = some (pint allowed)) (ho : env "output_msg" = some pnone) :
+    match sfFinM s1 r1.tat md allowed with
+    | .raised _ e => execBlock (txM s1) env (drop stSF 2) = .error (.exc e)
+    | .badGen _ => False
+    | .done s' out _ =>
+      ∃ env', execBlock (txM s1) env (drop stSF 2) = .ok (.next env') ∧ Rep env' s' ∧
+        env' "output_msg" = some (optMsgPV out) ∧ Frame ["arbitration_id", "msg_temp", "output_msg"] env env' := by
+  have hq := hR.req r1 ha
+  unfold sfFinM
+  cases hm : makeTxMsg s1.cfg s1.addr (s1.addr.tx.txId r1.tat) md with
+  | none =>
+    simp only
+    simp [stSF, ST, drop, nth, thenOf, Src.TransportLayerLogic_p_process_tx__start_tx, execBlock, execStmt, eval, evalArgs, bi_none,
+      hq.tat, fn_arb1, set_get, hmd, fn_make_tx_msg, hm]
+  | some msg =>
+    simp only
+    by_cases hgt : md.length > allowed
+    · simp only [hgt, if_true]
+      have hgt' : (allowed : Int) < (md.length : Int) := by omega
+      refine ⟨?_, ?h1, ?h2, ?h3, ?h4⟩
+      case h1 =>
+        simp [stSF, ST, drop, nth, thenOf, Src.TransportLayerLogic_p_process_tx__start_tx, execBlock, execStmt, eval, evalArgs,
+          bi_none, hq.tat, fn_arb1, set_get, hmd, fn_make_tx_msg, hm, builtin_len_bytes, hal, evalCmp_gt_pint, hgt',
+          hR.consts.sfStandby]
+        rfl
+      case h2 =>
+        have := (((hR.setOther (k := "arbitration_id") (by decide) (pint (s1.addr.tx.txId r1.tat))).setOther (k := "msg_temp")
+          (by decide) (msgPV msg)).setStandby (some msg)).setTxState .sfStandby
+        simpa [optMsgPV] using this
+      case h3 => simp [set_get, ho, optMsgPV]
+      case h4 =>
+        exact ((((Frame.refl _ env).set (.inr (by decide)) _).set (.inr (by decide)) _).set (.inl (by decide)) _).set
+          (.inl (by decide)) _
+    · simp only [hgt, if_false]
+      have hgt' : ¬ (allowed : Int) < (md.length : Int) := by omega
+      have R1 : Rep (((env.set "arbitration_id" (pint (s1.addr.tx.txId r1.tat))).set "msg_temp" (msgPV msg)).set "output_msg"
+          (msgPV msg)) s1 :=
+        ((hR.setOther (by decide) _).setOther (by decide) _).setOther (by decide) _
+      obtain ⟨env', he, hR', hF⟩ := stopP_rep R1 true []
+      refine ⟨env', ?_, hR', ?_, ?_⟩
+      · simp [stSF, ST, drop, nth, thenOf, Src.TransportLayerLogic_p_process_tx__start_tx, execBlock, execStmt, eval, evalArgs,
+          bi_none, hq.tat, fn_arb1, set_get, hmd, fn_make_tx_msg, hm, builtin_len_bytes, hal, evalCmp_gt_pint, hgt',
+          proc_stop, he]
+      · rw [hF _ (by decide) (by simp)]; simp [set_get, optMsgPV]
+      · exact ((((Frame.refl _ env).set (.inr (by decide)) _).set (.inr (by decide)) _).set (.inr (by decide)) _).trans
+          (hF.mono (by simp))
+
+/-- end of the First Frame branch: `tx_seqnum = 1`, `_make_tx_msg`, then emission (wait for Flow Control) or standby -/
+def ffFinM (s1 : State) (md : Bytes) (allowed : Nat) : Outcome :=
+  let s2 := { s1 with txSeq := 1 }
+  match makeTxMsg s2.cfg s2.addr (s2.addr.tx.txId .physical) md with
+  | none => .raised s2 .ValueError
+  | some msg =>
+    if md.length ≤ allowed then .done (({ s2 with txState := .waitFc }).startRxFcTimer) (some msg) false
+    else .done { s2 with standby := some msg, txState := .ffStandby } none false
+
+theorem ff_finish (s1 : State) (env : Env) (md : Bytes) (allowed : Nat) (hR : Rep env s1)
+    (hmd : env "msg_data" = some (.bytes md))
+    (hal : env "allowed_bytes" = some (pint allowed)) (ho : env "output_msg" = some pnone) :
+    match ffFinM s1 md allowed with
+    | .raised _ e => execBlock (txM s1) env (drop stFF 3) = .error (.exc e)
+    | .badGen _ => False
+    | .done s' out _ =>
+      ∃ env', execBlock (txM s1) env (drop stFF 3) = .ok (.next env') ∧ Rep env' s' ∧
+        env' "output_msg" = some (optMsgPV out) ∧ Frame ["arbitration_id", "msg_temp", "output_msg"] env env' := by
+  unfold ffFinM
+  simp only
+  cases hm : makeTxMsg s1.cfg s1.addr (s1.addr.tx.txId .physical) md with
+  | none =>
+    simp only
+    simp [stFF, ST, drop, nth, elseOf, Src.TransportLayerLogic_p_process_tx__start_tx, execBlock, execStmt, eval, evalArgs, bi_none,
+      fn_arb0, set_get, hmd, fn_make_tx_msg, hm]
+  | some msg =>
+    simp only
+    by_cases hle : md.length ≤ allowed
+    · simp only [hle, if_true]
+      have hle' : (md.length : Int) ≤ (allowed : Int) := by omega
+      refine ⟨?_, ?h1, ?h2, ?h3, ?h4⟩
+      case h1 =>
+        simp [stFF, ST, drop, nth, elseOf, Src.TransportLayerLogic_p_process_tx__start_tx, execBlock, execStmt, eval, evalArgs,
+          bi_none, fn_arb0, set_get, hmd, fn_make_tx_msg, hm, builtin_len_bytes, hal, evalCmp_le_pint, hle',
+          hR.consts.waitFc, proc_start_fc]
+        rfl
+      case h2 =>
+        have := ((((((hR.setOther (k := "arbitration_id") (by decide) (pint (s1.addr.tx.txId .physical))).setTxSeq 1).setOther
+          (k := "msg_temp") (by decide) (msgPV msg)).setOther (k := "output_msg") (by decide) (msgPV msg)).setTxState .waitFc).startFc)
+        simpa using this
+      case h3 => simp [set_get, optMsgPV]
+      case h4 =>
+        exact (((((((Frame.refl _ env).set (.inr (by decide)) _).set (.inl (by decide)) _).set (.inr (by decide)) _).set
+          (.inr (by decide)) _).set (.inl (by decide)) _).set (.inl (by decide)) _).set (.inl (by decide)) _
+    · simp only [hle, if_false]
+      have hle' : ¬ (md.length : Int) ≤ (allowed : Int) := by omega
+      refine ⟨?_, ?h1, ?h2, ?h3, ?h4⟩
+      case h1 =>
+        simp [stFF, ST, drop, nth, elseOf, Src.TransportLayerLogic_p_process_tx__start_tx, execBlock, execStmt, eval, evalArgs,
+          bi_none, fn_arb0, set_get, hmd, fn_make_tx_msg, hm, builtin_len_bytes, hal, evalCmp_le_pint, hle',
+          hR.consts.ffStandby]
+        rfl
+      case h2 =>
+        have := (((((hR.setOther (k := "arbitration_id") (by decide) (pint (s1.addr.tx.txId .physical))).setTxSeq 1).setOther
+          (k := "msg_temp") (by decide) (msgPV msg)).setStandby (some msg)).setTxState .ffStandby)
+        simpa [optMsgPV] using this
+      case h3 => simp [set_get, ho, optMsgPV]
+      case h4 =>
+        exact (((((Frame.refl _ env).set (.inr (by decide)) _).set (.inl (by decide)) _).set (.inr (by decide)) _).set
+          (.inl (by decide)) _).set (.inl (by decide)) _
+
+theorem consume_len_le {r : Req} {n : Nat} {e : Bool} {d : Bytes} (h : (r.consume n e).2 = some d) : d.length ≤ n := by
+  unfold Req.consume at h
+  simp only at h
+  split at h
+  · cases h
+  · split at h
+    · split at h
+      · cases h
+      · cases h; simp [List.length_take]; omega
+    · cases h; simp [List.length_take]; omega
+
+theorem txPrefix_len_le (h : Half) : h.txPrefix.length ≤ 1 := by
+  unfold Half.txPrefix; split <;> simp
+
+theorem ST_shape : ST = .cons (nth ST 0) (.cons (.ite (condOf (nth ST 1)) stSF stFF) .nil) := rfl
+theorem stSF_shape : stSF = .cons (nth stSF 0) (.cons (.ite (.var "size_on_first_byte")
+    (.cons (nth (thenOf (nth stSF 1)) 0) .nil) (.cons (nth (elseOf (nth stSF 1)) 0) .nil)) (drop stSF 2)) := rfl
+theorem stFF_shape : stFF = .cons (nth stFF 0) (.cons (nth stFF 1) (.cons (.ite (.var "encode_length_on_2_first_bytes")
+    (thenOf (nth stFF 2)) (elseOf (nth stFF 2))) (drop stFF 3))) := rfl
+theorem ffA_shape : thenOf (nth stFF 2) =
+    .cons (nth (thenOf (nth stFF 2)) 0) (.cons (nth (thenOf (nth stFF 2)) 1) (.cons (nth (thenOf (nth stFF 2)) 2) .nil)) := rfl
+theorem ffB_shape : elseOf (nth stFF 2) =
+    .cons (nth (elseOf (nth stFF 2)) 0) (.cons (nth (elseOf (nth stFF 2)) 1) (.cons (nth (elseOf (nth stFF 2)) 2) .nil)) := rfl
+
+/-- the locals the region writes -/
+def stLocals : List String :=
+  ["total_size", "payload", "msg_data", "arbitration_id", "msg_temp", "output_msg", "encode_length_on_2_first_bytes", "data_length"]
+
+/-- the First Frame data: `data_length = ...; payload = consume(data_length, True); msg_data = prefix + header + payload` -/
+theorem ff_data (s0 : State) (env : Env) (r : Req) (hR : Rep env s0) (ha : s0.active = some r)
+    (hdl : 8 ≤ s0.cfg.txDl)
+    (henc : env "encode_length_on_2_first_bytes" = some (pbool (decide (s0.txFrameLen ≤ 0xFFF)))) :
+    let pl := s0.txPrefixLen
+    let dataLen := if s0.txFrameLen ≤ 0xFFF then s0.cfg.txDl - 2 - pl else s0.cfg.txDl - 6 - pl
+    let total := s0.txFrameLen
+    let hdr : Bytes :=
+      if total ≤ 0xFFF then [u8 (0x10 + total / 256 % 16), u8 (total % 256)]
+      else [0x10, 0x00, u8 (total / 16777216 % 256), u8 (total / 65536 % 256), u8 (total / 256 % 256), u8 (total % 256)]
+    match (r.consume dataLen true).2 with
+    | none => execStmt (txM s0) env (.ite (.var "encode_length_on_2_first_bytes") (thenOf (nth stFF 2)) (elseOf (nth stFF 2))) =
+        .error (.unsupported "raise BadGeneratorError")
+    | some payload =>
+      ∃ env', execStmt (txM s0) env (.ite (.var "encode_length_on_2_first_bytes") (thenOf (nth stFF 2)) (elseOf (nth stFF 2))) =
+          .ok (.next env') ∧ Rep env' (s0.consumeActive r dataLen true).1 ∧
+        env' "msg_data" = some (.bytes (s0.addr.tx.txPrefix ++ hdr ++ payload)) ∧
+        Frame ["data_length", "payload", "msg_data"] env env' := by
+  have hpl : s0.txPrefixLen ≤ 1 := txPrefix_len_le _
+  simp only
+  by_cases hs : s0.txFrameLen ≤ 0xFFF
+  · simp only [hs, if_true, decide_true] at henc ⊢
+    rw [ite_true (v := pbool true) (by simp [eval, henc]) rfl, ffA_shape]
+    have e : ((s0.cfg.txDl : Int) - 2 - (s0.addr.tx.txPrefix.length : Int)) = ((s0.cfg.txDl - 2 - s0.txPrefixLen : Nat) : Int) := by
+      unfold State.txPrefixLen at *; omega
+    have h0 : execStmt (txM s0) env (nth (thenOf (nth stFF 2)) 0) =
+        .ok (.next (env.set "data_length" (pint ((s0.cfg.txDl - 2 - s0.txPrefixLen : Nat) : Int)))) := by
+      simp [stFF, ST, nth, thenOf, elseOf, Src.TransportLayerLogic_p_process_tx__start_tx, execStmt, eval, evalArgs, hR.txDl,
+        bi_none, fn_prefix, builtin_len_bytes, e]
+    rw [cons_next h0]
+    have R1 := hR.setOther (k := "data_length") (by decide) (pint ((s0.cfg.txDl - 2 - s0.txPrefixLen : Nat) : Int))
+    generalize s0.cfg.txDl - 2 - s0.txPrefixLen = n at *
+    cases hc : (r.consume n true).2 with
+    | none =>
+      simp only
+      have h1 : execStmt (txM s0) (env.set "data_length" (pint (n : Int))) (nth (thenOf (nth stFF 2)) 1) =
+          .error (.unsupported "raise BadGeneratorError") := by
+        simp [stFF, ST, nth, thenOf, elseOf, Src.TransportLayerLogic_p_process_tx__start_tx, execStmt, eval, evalArgs, set_get,
+          bi_none, proc_consume, consumeP_none R1 ha n true hc]
+      rw [cons_err h1]
+    | some payload =>
+      simp only
+      obtain ⟨env2, he2, R2, hp2, hF2⟩ := consumeP_some R1 ha n true payload hc
+      have h1 : execStmt (txM s0) (env.set "data_length" (pint (n : Int))) (nth (thenOf (nth stFF 2)) 1) = .ok (.next env2) := by
+        simp [stFF, ST, nth, thenOf, elseOf, Src.TransportLayerLogic_p_process_tx__start_tx, execStmt, eval, evalArgs, set_get,
+          bi_none, proc_consume, he2]
+      rw [cons_next h1, block_single]
+      have hfl : env2 "self.tx_frame_length" = some (pint (s0.txFrameLen : Int)) := by
+        have := R2.txFrameLen
+        rwa [(consumeActive_spec s0 r n true).2.2.2.2.2.2.2.2.2.2] at this
+      have h2 := assign_msg_data s0.cfg s0.addr s0.now s0.rl env2 _ [16 + s0.txFrameLen / 256 % 16, s0.txFrameLen % 256] payload
+        (hdr12_eval _ env2 s0.txFrameLen hfl) (by intro x hx; simp at hx; omega) hp2
+      refine ⟨_, h2, R2.setOther (by decide) _, by simp [set_get], ?_⟩
+      exact (((Frame.refl _ env).set (.inr (by decide)) _).trans (hF2.mono (by simp))).set (.inr (by decide)) _
+  · simp only [hs, if_false, decide_false] at henc ⊢
+    rw [ite_false (v := pbool false) (by simp [eval, henc]) rfl, ffB_shape]
+    have e : ((s0.cfg.txDl : Int) - 6 - (s0.addr.tx.txPrefix.length : Int)) = ((s0.cfg.txDl - 6 - s0.txPrefixLen : Nat) : Int) := by
+      unfold State.txPrefixLen at *; omega
+    have h0 : execStmt (txM s0) env (nth (elseOf (nth stFF 2)) 0) =
+        .ok (.next (env.set "data_length" (pint ((s0.cfg.txDl - 6 - s0.txPrefixLen : Nat) : Int)))) := by
+      simp [stFF, ST, nth, thenOf, elseOf, Src.TransportLayerLogic_p_process_tx__start_tx, execStmt, eval, evalArgs, hR.txDl,
+        bi_none, fn_prefix, builtin_len_bytes, e]
+    rw [cons_next h0]
+    have R1 := hR.setOther (k := "data_length") (by decide) (pint ((s0.cfg.txDl - 6 - s0.txPrefixLen : Nat) : Int))
+    generalize s0.cfg.txDl - 6 - s0.txPrefixLen = n at *
+    cases hc : (r.consume n true).2 with
+    | none =>
+      simp only
+      have h1 : execStmt (txM s0) (env.set "data_length" (pint (n : Int))) (nth (elseOf (nth stFF 2)) 1) =
+          .error (.unsupported "raise BadGeneratorError") := by
+        simp [stFF, ST, nth, thenOf, elseOf, Src.TransportLayerLogic_p_process_tx__start_tx, execStmt, eval, evalArgs, set_get,
+          bi_none, proc_consume, consumeP_none R1 ha n true hc]
+      rw [cons_err h1]
+    | some payload =>
+      simp only
+      obtain ⟨env2, he2, R2, hp2, hF2⟩ := consumeP_some R1 ha n true payload hc
+      have h1 : execStmt (txM s0) (env.set "data_length" (pint (n : Int))) (nth (elseOf (nth stFF 2)) 1) = .ok (.next env2) := by
+        simp [stFF, ST, nth, thenOf, elseOf, Src.TransportLayerLogic_p_process_tx__start_tx, execStmt, eval, evalArgs, set_get,
+          bi_none, proc_consume, he2]
+      rw [cons_next h1, block_single]
+      have hfl : env2 "self.tx_frame_length" = some (pint (s0.txFrameLen : Int)) := by
+        have := R2.txFrameLen
+        rwa [(consumeActive_spec s0 r n true).2.2.2.2.2.2.2.2.2.2] at this
+      have h2 := assign_msg_data s0.cfg s0.addr s0.now s0.rl env2 _
+        [16, 0, s0.txFrameLen / 16777216 % 256, s0.txFrameLen / 65536 % 256, s0.txFrameLen / 256 % 256, s0.txFrameLen % 256] payload
+        (hdr32_eval _ env2 s0.txFrameLen hfl) (by intro x hx; simp at hx; omega) hp2
+      refine ⟨_, h2, R2.setOther (by decide) _, by simp [set_get, u8], ?_⟩
+      exact (((Frame.refl _ env).set (.inr (by decide)) _).trans (hF2.mono (by simp))).set (.inr (by decide)) _
+
+/-- **`start_tx`** (the body of the `try`): Single Frame or First Frame, as `State.startTx` (`startTx_eq`) -/
+theorem start_tx_agrees (s : State) (env : Env) (r : Req) (allowed : Nat) (hR : Rep env s) (ha : s.active = some r)
+    (hsof : env "size_on_first_byte" = some (pbool (sizeOnFirstM s r)))
+    (hoff : env "size_offset" = some (pint (if sizeOnFirstM s r then 1 else 2)))
+    (hal : env "allowed_bytes" = some (pint allowed)) (ho : env "output_msg" = some pnone)
+    (hdl : 8 ≤ s.cfg.txDl ∧ s.cfg.txDl ≤ 64) :
+    match startTxR s r allowed with
+    | .raised _ e => execBlock (txM s) env ST = .error (.exc e)
+    | .badGen _ => execBlock (txM s) env ST = .error (.unsupported "raise BadGeneratorError")
+    | .done s' out _ =>
+      ∃ env', execBlock (txM s) env ST = .ok (.next env') ∧ Rep env' s' ∧ env' "output_msg" = some (optMsgPV out) ∧
+        Frame stLocals env env' := by
+  have hq := hR.req r ha
+  have hpl : s.txPrefixLen ≤ 1 := txPrefix_len_le _
+  rw [ST_shape]
+  have h0 : execStmt (txM s) env (nth ST 0) = .ok (.next (env.set "total_size" (pint (r.size : Int)))) := by
+    simp [ST, nth, Src.TransportLayerLogic_p_process_tx__start_tx, execStmt, eval, evalArgs, bi_none, fn_total, genTotal_rep hq]
+  rw [cons_next h0, block_single]
+  have R1 := hR.setOther (k := "total_size") (by decide) (pint (r.size : Int))
+  generalize he1 : env.set "total_size" (pint (r.size : Int)) = env1 at *
+  have hF1 : Frame ["total_size"] env env1 := by rw [← he1]; exact (Frame.refl _ env).set (.inr (by decide)) _
+  have hts : env1 "total_size" = some (pint (r.size : Int)) := by rw [← he1]; simp [set_get]
+  have hsof1 : env1 "size_on_first_byte" = some (pbool (sizeOnFirstM s r)) := by rw [hF1 _ (by decide) (by decide)]; exact hsof
+  have hoff1 : env1 "size_offset" = some (pint (if sizeOnFirstM s r then 1 else 2)) := by
+    rw [hF1 _ (by decide) (by decide)]; exact hoff
+  have hal1 : env1 "allowed_bytes" = some (pint allowed) := by rw [hF1 _ (by decide) (by decide)]; exact hal
+  have ho1 : env1 "output_msg" = some pnone := by rw [hF1 _ (by decide) (by decide)]; exact ho
+  have hc : eval (txM s) env1 (condOf (nth ST 1)) =
+      .ok (pbool (decide (r.size + (if sizeOnFirstM s r then 1 else 2) + s.txPrefixLen ≤ s.cfg.txDl))) := by
+    have e : ((r.size : Int) ≤ (s.cfg.txDl : Int) - (if sizeOnFirstM s r = true then 1 else 2) - (s.addr.tx.txPrefix.length : Int)) ↔
+        r.size + (if sizeOnFirstM s r = true then 1 else 2) + s.txPrefixLen ≤ s.cfg.txDl := by
+      unfold State.txPrefixLen; split <;> omega
+    simp [ST, nth, condOf, Src.TransportLayerLogic_p_process_tx__start_tx, eval, evalArgs, hts, R1.txDl, hoff1, bi_none, fn_prefix,
+      builtin_len_bytes, evalCmp_le_pint, e]
+  unfold startTxR
+  simp only
+  by_cases hsf : r.size + (if sizeOnFirstM s r then 1 else 2) + s.txPrefixLen ≤ s.cfg.txDl
+  · -- Single Frame
+    rw [ite_true hc (by simp [hsf]), stSF_shape]
+    simp only [hsf, if_true]
+    obtain ⟨c1, c2, c3, c4, c5, c6, c7, -, -, -, -⟩ := consumeActive_spec s r r.size true
+    obtain ⟨-, -, f3, -⟩ := consume_fields r r.size true
+    rcases hca : s.consumeActive r r.size true with ⟨s1, r1, res⟩
+    rw [hca] at c1 c2 c3 c4 c5 c6 c7
+    simp only at c1 c2 c3 c4 c5 c6 c7
+    cases res with
+    | none =>
+      simp only
+      have hB0 : execStmt (txM s) env1 (nth stSF 0) = .error (.unsupported "raise BadGeneratorError") := by
+        simp [stSF, ST, nth, thenOf, Src.TransportLayerLogic_p_process_tx__start_tx, execStmt, eval, evalArgs, hts,
+          bi_none, proc_consume, consumeP_none R1 ha r.size true c2.symm]
+      rw [cons_err hB0]
+    | some payload =>
+      simp only
+      obtain ⟨env2, he2, R2, hp2, hF2⟩ := consumeP_some R1 ha r.size true payload c2.symm
+      rw [hca] at R2
+      simp only at R2
+      have hB0 : execStmt (txM s) env1 (nth stSF 0) = .ok (.next env2) := by
+        simp [stSF, ST, nth, thenOf, Src.TransportLayerLogic_p_process_tx__start_tx, execStmt, eval, evalArgs, hts,
+          bi_none, proc_consume, he2]
+      rw [cons_next hB0]
+      have hlen : payload.length ≤ 255 := by
+        have := consume_len_le c2.symm
+        split at hsf <;> omega
+      have hsof2 : env2 "size_on_first_byte" = some (pbool (sizeOnFirstM s r)) := by
+        rw [hF2 _ (by decide) (by decide)]; exact hsof1
+      -- msg_data
+      have hB1 : execStmt (txM s) env2 (.ite (.var "size_on_first_byte") (.cons (nth (thenOf (nth stSF 1)) 0) .nil)
+          (.cons (nth (elseOf (nth stSF 1)) 0) .nil)) =
+          .ok (.next (env2.set "msg_data" (.bytes (s.addr.tx.txPrefix ++
+            (if sizeOnFirstM s r then [u8 payload.length] else [0, u8 payload.length]) ++ payload)))) := by
+        cases hb : sizeOnFirstM s r
+        · rw [hb] at hsof2
+          rw [ite_false (v := pbool false) (by simp [eval, hsof2]) rfl, block_single]
+          have := assign_msg_data s.cfg s.addr s.now s.rl env2 _ [0, payload.length] payload (hdrSf2_eval _ env2 payload hp2)
+            (by intro x hx; simp at hx; omega) hp2
+          refine Eq.trans this ?_
+          simp [u8]
+        · rw [hb] at hsof2
+          rw [ite_true (v := pbool true) (by simp [eval, hsof2]) rfl, block_single]
+          have := assign_msg_data s.cfg s.addr s.now s.rl env2 _ [payload.length] payload (hdrSf1_eval _ env2 payload hp2)
+            (by intro x hx; simp at hx; omega) hp2
+          refine Eq.trans this ?_
+          simp [u8]
+      rw [cons_next hB1]
+      have hM1 : txM s1 = txM s := txM_eq c4 c5 c6 c7
+      rw [c5]
+      generalize hmd : (s.addr.tx.txPrefix ++ (if sizeOnFirstM s r = true then [u8 payload.length] else [0, u8 payload.length]) ++
+        payload) = md at *
+      have hfin := sf_finish s1 (env2.set "msg_data" (.bytes md)) r1 md allowed
+        (R2.setOther (k := "msg_data") (by decide) _) (by rw [c3, c1]) (by simp [set_get])
+        (by simp only [set_get]; rw [hF2 _ (by decide) (by decide)]; simpa using hal1)
+        (by simp only [set_get]; rw [hF2 _ (by decide) (by decide)]; simpa using ho1)
+      rw [hM1, c1, f3] at hfin
+      unfold sfFinM at hfin
+      rw [c5] at hfin
+      cases hm : makeTxMsg s1.cfg s.addr (s.addr.tx.txId r.tat) md with
+      | none =>
+        rw [hm] at hfin
+        exact hfin
+      | some msg =>
+        rw [hm] at hfin
+        simp only at hfin ⊢
+        by_cases hgt : md.length > allowed
+        · simp only [hgt, if_true] at hfin ⊢
+          obtain ⟨env', he', R', ho', hF'⟩ := hfin
+          refine ⟨env', he', R', ho', ?_⟩
+          exact ((hF1.mono (by simp [stLocals])).trans (hF2.mono (by simp [stLocals]))).trans
+            (((Frame.refl _ env2).set (.inr (by simp [stLocals])) _).trans (hF'.mono (by simp [stLocals])))
+        · simp only [hgt, if_false] at hfin ⊢
+          obtain ⟨env', he', R', ho', hF'⟩ := hfin
+          refine ⟨env', he', R', ho', ?_⟩
+          exact ((hF1.mono (by simp [stLocals])).trans (hF2.mono (by simp [stLocals]))).trans
+            (((Frame.refl _ env2).set (.inr (by simp [stLocals])) _).trans (hF'.mono (by simp [stLocals])))
+  · -- First Frame
+    rw [ite_false hc (by simp [hsf]), stFF_shape]
+    simp only [hsf, if_false]
+    have hC0 : execStmt (txM s) env1 (nth stFF 0) = .ok (.next (env1.set "self.tx_frame_length" (pint (r.size : Int)))) := by
+      simp [stFF, ST, nth, elseOf, Src.TransportLayerLogic_p_process_tx__start_tx, execStmt, eval, hts]
+    rw [cons_next hC0]
+    have R2 := R1.setTxFrameLen r.size
+    have hC1 : execStmt (txM s) (env1.set "self.tx_frame_length" (pint (r.size : Int))) (nth stFF 1) =
+        .ok (.next ((env1.set "self.tx_frame_length" (pint (r.size : Int))).set "encode_length_on_2_first_bytes"
+          (pbool (decide (r.size ≤ 0xFFF))))) := by
+      by_cases h12 : r.size ≤ 0xFFF
+      · have h12' : (r.size : Int) ≤ 4095 := by omega
+        simp [stFF, ST, nth, elseOf, Src.TransportLayerLogic_p_process_tx__start_tx, execStmt, eval, set_get, evalCmp_le_pint, h12, h12']
+      · have h12' : ¬ (r.size : Int) ≤ 4095 := by omega
+        simp [stFF, ST, nth, elseOf, Src.TransportLayerLogic_p_process_tx__start_tx, execStmt, eval, set_get, evalCmp_le_pint, h12, h12']
+    rw [cons_next hC1]
+    have R3 := R2.setOther (k := "encode_length_on_2_first_bytes") (by decide) (pbool (decide (r.size ≤ 0xFFF)))
+    generalize he3 : (env1.set "self.tx_frame_length" (pint (r.size : Int))).set "encode_length_on_2_first_bytes"
+      (pbool (decide (r.size ≤ 0xFFF))) = env3 at *
+    have hF3 : Frame ["encode_length_on_2_first_bytes"] env1 env3 := by
+      rw [← he3]; exact ((Frame.refl _ env1).set (.inl (by decide)) _).set (.inr (by decide)) _
+    have henc : env3 "encode_length_on_2_first_bytes" = some (pbool (decide (r.size ≤ 0xFFF))) := by rw [← he3]; simp [set_get]
+    have hdat := ff_data { s with txFrameLen := r.size } env3 r R3 ha hdl.1 henc
+    simp only at hdat
+    rcases hca : ({ s with txFrameLen := r.size } : State).consumeActive r
+      (if r.size ≤ 4095 then s.cfg.txDl - 2 - s.txPrefixLen else s.cfg.txDl - 6 - s.txPrefixLen) true with ⟨s1, r1, res⟩
+    obtain ⟨c1, c2, c3, c4, c5, c6, c7, -, -, -, -⟩ := consumeActive_spec ({ s with txFrameLen := r.size } : State) r
+      (if r.size ≤ 4095 then s.cfg.txDl - 2 - s.txPrefixLen else s.cfg.txDl - 6 - s.txPrefixLen) true
+    rw [hca] at c1 c2 c3 c4 c5 c6 c7
+    simp only at c1 c2 c3 c4 c5 c6 c7
+    have hM0 : txM ({ s with txFrameLen := r.size } : State) = txM s := rfl
+    rw [hM0] at hdat
+    change (match (r.consume (if r.size ≤ 4095 then s.cfg.txDl - 2 - s.txPrefixLen else s.cfg.txDl - 6 - s.txPrefixLen) true).2 with
+      | none => _ | some payload => _) at hdat
+    rw [← c2] at hdat
+    cases res with
+    | none =>
+      simp only at hdat ⊢
+      rw [cons_err hdat]
+    | some payload =>
+      simp only at hdat ⊢
+      obtain ⟨env4, he4, R4', hmd4, hF4⟩ := hdat
+      have R4 : Rep env4 (({ s with txFrameLen := r.size } : State).consumeActive r
+        (if r.size ≤ 4095 then s.cfg.txDl - 2 - s.txPrefixLen else s.cfg.txDl - 6 - s.txPrefixLen) true).1 := R4'
+      rw [hca] at R4
+      simp only at R4
+      rw [cons_next he4]
+      have hM1 : txM s1 = txM s := txM_eq c4 c5 c6 c7
+      rw [c5]
+      generalize hmd : (s.addr.tx.txPrefix ++ (if r.size ≤ 4095 then [u8 (16 + r.size / 256 % 16), u8 (r.size % 256)]
+        else [16, 0, u8 (r.size / 16777216 % 256), u8 (r.size / 65536 % 256), u8 (r.size / 256 % 256), u8 (r.size % 256)]) ++
+        payload) = md at *
+      have hfin := ff_finish s1 env4 md allowed R4 hmd4
+        (by rw [hF4 _ (by decide) (by decide), hF3 _ (by decide) (by decide)]; exact hal1)
+        (by rw [hF4 _ (by decide) (by decide), hF3 _ (by decide) (by decide)]; exact ho1)
+      rw [hM1] at hfin
+      unfold ffFinM at hfin
+      simp only at hfin
+      rw [c5] at hfin
+      cases hm : makeTxMsg s1.cfg s.addr (s.addr.tx.txId .physical) md with
+      | none =>
+        rw [hm] at hfin
+        exact hfin
+      | some msg =>
+        rw [hm] at hfin
+        simp only at hfin ⊢
+        by_cases hle : md.length ≤ allowed
+        · simp only [hle, if_true] at hfin ⊢
+          obtain ⟨env', he', R', ho', hF'⟩ := hfin
+          refine ⟨env', he', R', ho', ?_⟩
+          exact (((hF1.mono (by simp [stLocals])).trans (hF3.mono (by simp [stLocals]))).trans
+            (hF4.mono (by simp [stLocals]))).trans (hF'.mono (by simp [stLocals]))
+        · simp only [hle, if_false] at hfin ⊢
+          obtain ⟨env', he', R', ho', hF'⟩ := hfin
+          refine ⟨env', he', R', ho', ?_⟩
+          exact (((hF1.mono (by simp [stLocals])).trans (hF3.mono (by simp [stLocals]))).trans
+            (hF4.mono (by simp [stLocals]))).trans (hF'.mono (by simp [stLocals]))
+
+/-! ## 4. Region `tail` (rate-limiter accounting and the final `return`) -/
+
+abbrev TAIL : PBlock := Src.TransportLayerLogic_p_process_tx__tail
+
+/-- the end of the model's `processTx` -/
+def tailM (s : State) (out : Option CanMsg) (imm : Bool) : State × Option CanMsg × Bool :=
+  match out with
+  | some msg => ({ s with rl := s.rl.inform s.now msg.data.length }, some msg, imm)
+  | none => (s, none, imm)
+
+/-- **`tail`**: `inform_byte_sent(len(output_msg.data))` when there is an output message, and the report.
+    `hd` is the meaning of the attribute access `output_msg.data` on the message object the local holds. -/
+theorem tail_agrees (s : State) (env : Env) (out : Option CanMsg) (imm : Bool) (hR : Rep env s)
+    (ho : env "output_msg" = some (optMsgPV out)) (hi : env "immediate_rx_msg_required" = some (pbool imm))
+    (hd : ∀ m, out = some m → env "output_msg.data" = some (.bytes m.data)) :
+    ∃ env', execBlock (txM s) env TAIL = .ok (.returned (reportPV out imm) env') ∧ Rep env' (tailM s out imm).1 ∧
+      (tailM s out imm).2 = (out, imm) ∧ Frame [] env env' := by
+  cases out with
+  | none =>
+    simp only [optMsgPV] at ho
+    refine ⟨env, ?_, hR, rfl, Frame.refl _ _⟩
+    simp [TAIL, Src.TransportLayerLogic_p_process_tx__tail, execBlock, execStmt, eval, evalArgs, ho, hi, bi_none, fn_report,
+      reportP, reportPV]
+  | some m =>
+    simp only [optMsgPV] at ho
+    have hd' := hd m rfl
+    refine ⟨env.set "#rl" (rlPV (s.rl.inform s.now m.data.length)), ?_, hR.setRl _, rfl, (Frame.refl _ _).set (.inl (by decide)) _⟩
+    simp [TAIL, Src.TransportLayerLogic_p_process_tx__tail, execBlock, execStmt, eval, evalArgs, ho, hi, hd', bi_none, fn_report,
+      builtin_len_bytes, proc_inform, set_get, reportP, reportPV, msgPV]
+
+/-! ## 5. Region `prefix` -/
+
+abbrev PRE : PBlock := Src.TransportLayerLogic_p_process_tx__prefix
+
+/-- the `if self.tx_state == self.TxState.IDLE: ... else: ...` statement that handles a received Flow Control (Wait / ContinueToSend) -/
+def hfStmt : PStmt := nth (thenOf (nth PRE 5)) 1
+
+/-- what the prefix knows about the local `flow_control_frame`: the attributes of the decoded PDU it holds
+    (`stmin_sec` is the float `stminNs stmin / 10^9`) -/
+structure FcLoc (env : Env) (f : FcFrame) : Prop where
+  fs : env "flow_control_frame.flow_status" = some (pint f.status)
+  bs : env "flow_control_frame.blocksize" = some (pint f.bs)
+  ss : env "flow_control_frame.stmin_sec" = some (nsPV (some (stminNs f.stmin)))
+
+theorem FcLoc.frame {env env' : Env} {f : FcFrame} {xs : List String} (h : FcLoc env f) (hF : Frame xs env env')
+    (hx : "flow_control_frame.flow_status" ∉ xs ∧ "flow_control_frame.blocksize" ∉ xs ∧ "flow_control_frame.stmin_sec" ∉ xs) :
+    FcLoc env' f :=
+  ⟨by rw [hF _ (by decide) hx.1]; exact h.fs, by rw [hF _ (by decide) hx.2.1]; exact h.bs,
+   by rw [hF _ (by decide) hx.2.2]; exact h.ss⟩
+
+theorem handleFc_idle (s : State) (env : Env) (f : FcFrame) (hR : Rep env s) (hst : s.txState = .idle) :
+    ∃ env', execStmt (txM s) env hfStmt = .ok (.next env') ∧ Rep env' (s.handleFc f) ∧ Frame [] env env' := by
+  refine ⟨?_, ?h1, ?h2, ?h3⟩
+  case h1 =>
+    simp [hfStmt, PRE, nth, thenOf, Src.TransportLayerLogic_p_process_tx__prefix, execStmt, execBlock, eval, evalArgs, hR.txState, hst,
+      hR.consts.idle, pvEq_txSt, bi_none, fn_err_unexpected, proc_trigger, trigP_rep hR]
+    rfl
+  case h2 => simpa [State.handleFc, hst] using hR.error .UnexpectedFlowControl
+  case h3 => exact (Frame.refl _ env).set (.inl (by decide)) _
+
+/-- evaluation of the Flow Control statement: everything that does not depend on the case -/
+macro "hf_eval" "[" ts:Lean.Parser.Tactic.simpLemma,* "]" : tactic =>
+  `(tactic| simp [hfStmt, PRE, nth, thenOf, Src.TransportLayerLogic_p_process_tx__prefix, execStmt, execBlock, eval, evalArgs,
+      pvEq_txSt, bi_none, fn_fc_timed_out, timedOutP_timer, proc_trigger, proc_stop, proc_start_fc, proc_fc_stop,
+      proc_st_start, fn_format, txStPV, txStName, set_get, evalCmp_ge_pint, $ts,*])
+
+theorem handleFc_wait (s : State) (env : Env) (f : FcFrame) (hR : Rep env s) (hL : FcLoc env f)
+    (hst : s.txState ≠ .idle) (h1 : f.status = 1) (hto : s.timerFc.timedOut s.now = false) :
+    ∃ env', execStmt (txM s) env hfStmt = .ok (.next env') ∧ Rep env' (s.handleFc f) ∧ Frame [] env env' := by
+  have hts := hR.txState
+  have hfs := hL.fs
+  rw [h1] at hfs
+  by_cases hw0 : s.cfg.wftmax = 0
+  · refine ⟨?_, ?h1, ?h2, ?h3⟩
+    case h1 =>
+      cases hs : s.txState <;> simp only [hs] at hst hts <;> first | exact absurd rfl hst | skip
+      all_goals
+        hf_eval [hts, hfs, hR.consts.idle, hR.consts.wait, hR.fcStart, hR.fcTo, hto, hR.wftmax, hw0, fn_err_unsupported,
+          trigP_rep hR]
+        try rfl
+    case h2 => simpa [State.handleFc, hst, h1, hto, hw0] using hR.error .UnsupportedWaitFrame
+    case h3 => exact (Frame.refl _ env).set (.inl (by decide)) _
+  · have hw0' : ¬ (s.cfg.wftmax : Int) = 0 := by omega
+    by_cases hmax : s.wftCnt ≥ s.cfg.wftmax
+    · have hmax' : (s.cfg.wftmax : Int) ≤ (s.wftCnt : Int) := by omega
+      obtain ⟨env', he, hR', hF⟩ := stopP_rep (hR.error .MaximumWaitFrameReached) false []
+      refine ⟨env', ?h1, ?h2, ?h3⟩
+      case h1 =>
+        cases hs : s.txState <;> simp only [hs] at hst hts <;> first | exact absurd rfl hst | skip
+        all_goals
+          hf_eval [hts, hfs, hR.consts.idle, hR.consts.wait, hR.fcStart, hR.fcTo, hto, hR.wftmax, hw0, hw0', fn_err_maxwait,
+            trigP_rep hR, hR.wftCnt, hmax', he]
+      case h2 => simpa [State.handleFc, hst, h1, hto, hw0, hmax] using hR'
+      case h3 => exact ((Frame.refl _ env).set (.inl (by decide)) _).trans hF
+    · have hmax' : ¬ (s.cfg.wftmax : Int) ≤ (s.wftCnt : Int) := by omega
+      by_cases hwc : s.txState = .waitFc ∨ s.txState = .transmitCf
+      · refine ⟨?_, ?h1, ?h2, ?h3⟩
+        case h1 =>
+          rcases hwc with hs | hs <;> simp only [hs] at hst hts
+          all_goals
+            hf_eval [hts, hfs, hR.consts.idle, hR.consts.wait, hR.fcStart, hR.fcTo, hto, hR.wftmax, hw0, hw0',
+              hR.wftCnt, hmax', hR.consts.waitFc, hR.consts.transmitCf]
+            try rfl
+        case h2 =>
+          have := ((hR.setWftCnt (s.wftCnt + 1)).setTxState .waitFc).startFc
+          rcases hwc with hs | hs <;> simpa [State.handleFc, hs, h1, hto, hw0, hmax, txStPV, txStName] using this
+        case h3 =>
+          exact ((((Frame.refl _ env).set (.inl (by decide)) _).set (.inl (by decide)) _).set (.inl (by decide)) _).set
+            (.inl (by decide)) _
+      · refine ⟨?_, ?h1, ?h2, ?h3⟩
+        case h1 =>
+          cases hs : s.txState <;> simp only [hs] at hst hts hwc <;> first | exact absurd rfl hst | simp at hwc | skip
+          all_goals
+            hf_eval [hts, hfs, hR.consts.idle, hR.consts.wait, hR.fcStart, hR.fcTo, hto, hR.wftmax, hw0, hw0',
+              hR.wftCnt, hmax', hR.consts.waitFc, hR.consts.transmitCf]
+            try rfl
+        case h2 =>
+          have := hR.setWftCnt (s.wftCnt + 1)
+          simp only [not_or] at hwc
+          simpa [State.handleFc, hst, hwc.1, hwc.2, h1, hto, hw0, hmax] using this
+        case h3 => exact (Frame.refl _ env).set (.inl (by decide)) _
+theorem nsPV_bne (n : Nat) : (nsPV (some n) != pnone) = true := by simp [nsPV, pnone]
+theorem nsPV_ne (n : Nat) : ¬ nsPV (some n) = pnone := by simp [nsPV, pnone]
+
+theorem handleFc_cts (s : State) (env : Env) (f : FcFrame) (hR : Rep env s) (hL : FcLoc env f)
+    (h0 : f.status = 0) (hto : s.timerFc.timedOut s.now = false) (hwc : s.txState = .waitFc ∨ s.txState = .transmitCf) :
+    ∃ env', execStmt (txM s) env hfStmt = .ok (.next env') ∧ Rep env' (s.handleFc f) ∧ Frame [] env env' := by
+  have hts := hR.txState
+  have hfs := hL.fs
+  rw [h0] at hfs
+  have hovr := hR.ovr
+  rcases hwc with hs | hs
+  · -- WAIT_FC: the block counter restarts, the STmin timer is started
+    simp only [hs] at hts
+    cases ho : s.cfg.overrideStminNs with
+    | none =>
+      simp only [ho, nsPV] at hovr
+      refine ⟨?_, ?h1, ?h2, ?h3⟩
+      case h1 =>
+        hf_eval [hts, hfs, hR.consts.idle, hR.consts.wait, hR.consts.cts, hR.fcStart, hR.fcTo, hto, hR.consts.waitFc,
+          hR.consts.transmitCf, hL.ss, hL.bs, nsPV_bne, nsPV_ne, hovr, proc_st_set_timeout]
+        rfl
+      case h2 =>
+        have := (((((((hR.setWftCnt 0).setFcStart none).setStTo (stminNs f.stmin)).setRemoteBs (some f.bs)).setTxBlockCnt 0).setStStart
+          (some s.now)).setTxState .transmitCf)
+        simpa [State.handleFc, hs, h0, hto, ho, txStPV, txStName, optPV, Timer.stop, Timer.startAt] using this
+      case h3 =>
+        exact (((((((Frame.refl _ env).set (.inl (by decide)) _).set (.inl (by decide)) _).set (.inl (by decide)) _).set
+          (.inl (by decide)) _).set (.inl (by decide)) _).set (.inl (by decide)) _).set (.inl (by decide)) _
+    | some o =>
+      simp only [ho] at hovr
+      refine ⟨?_, ?h1, ?h2, ?h3⟩
+      case h1 =>
+        hf_eval [hts, hfs, hR.consts.idle, hR.consts.wait, hR.consts.cts, hR.fcStart, hR.fcTo, hto, hR.consts.waitFc,
+          hR.consts.transmitCf, hL.ss, hL.bs, nsPV_bne, nsPV_ne, hovr, proc_st_set_timeout]
+        rfl
+      case h2 =>
+        have := (((((((hR.setWftCnt 0).setFcStart none).setStTo o).setRemoteBs (some f.bs)).setTxBlockCnt 0).setStStart
+          (some s.now)).setTxState .transmitCf)
+        simpa [State.handleFc, hs, h0, hto, ho, txStPV, txStName, optPV, Timer.stop, Timer.startAt] using this
+      case h3 =>
+        exact (((((((Frame.refl _ env).set (.inl (by decide)) _).set (.inl (by decide)) _).set (.inl (by decide)) _).set
+          (.inl (by decide)) _).set (.inl (by decide)) _).set (.inl (by decide)) _).set (.inl (by decide)) _
+  · -- TRANSMIT_CF: only the parameters of the Flow Control are taken
+    simp only [hs] at hts
+    cases ho : s.cfg.overrideStminNs with
+    | none =>
+      simp only [ho, nsPV] at hovr
+      refine ⟨?_, ?h1, ?h2, ?h3⟩
+      case h1 =>
+        hf_eval [hts, hfs, hR.consts.idle, hR.consts.wait, hR.consts.cts, hR.fcStart, hR.fcTo, hto, hR.consts.waitFc,
+          hR.consts.transmitCf, hL.ss, hL.bs, nsPV_bne, nsPV_ne, hovr, proc_st_set_timeout]
+        rfl
+      case h2 =>
+        have := (((((hR.setWftCnt 0).setFcStart none).setStTo (stminNs f.stmin)).setRemoteBs (some f.bs)).setTxState .transmitCf)
+        simpa [State.handleFc, hs, h0, hto, ho, txStPV, txStName, optPV, Timer.stop, Timer.startAt] using this
+      case h3 =>
+        exact (((((Frame.refl _ env).set (.inl (by decide)) _).set (.inl (by decide)) _).set (.inl (by decide)) _).set
+          (.inl (by decide)) _).set (.inl (by decide)) _
+    | some o =>
+      simp only [ho] at hovr
+      refine ⟨?_, ?h1, ?h2, ?h3⟩
+      case h1 =>
+        hf_eval [hts, hfs, hR.consts.idle, hR.consts.wait, hR.consts.cts, hR.fcStart, hR.fcTo, hto, hR.consts.waitFc,
+          hR.consts.transmitCf, hL.ss, hL.bs, nsPV_bne, nsPV_ne, hovr, proc_st_set_timeout]
+        rfl
+      case h2 =>
+        have := (((((hR.setWftCnt 0).setFcStart none).setStTo o).setRemoteBs (some f.bs)).setTxState .transmitCf)
+        simpa [State.handleFc, hs, h0, hto, ho, txStPV, txStName, optPV, Timer.stop, Timer.startAt] using this
+      case h3 =>
+        exact (((((Frame.refl _ env).set (.inl (by decide)) _).set (.inl (by decide)) _).set (.inl (by decide)) _).set
+          (.inl (by decide)) _).set (.inl (by decide)) _
+theorem handleFc_other (s : State) (env : Env) (f : FcFrame) (hR : Rep env s) (hL : FcLoc env f)
+    (hst : s.txState ≠ .idle) (hnw : ¬ (f.status = 1 ∧ s.timerFc.timedOut s.now = false))
+    (hnc : ¬ (f.status = 0 ∧ s.timerFc.timedOut s.now = false ∧ (s.txState = .waitFc ∨ s.txState = .transmitCf))) :
+    execStmt (txM s) env hfStmt = .ok (.next env) ∧ s.handleFc f = s := by
+  have hts := hR.txState
+  have hfs := hL.fs
+  constructor
+  · by_cases h1 : f.status = 1
+    · have hto : s.timerFc.timedOut s.now = true := by
+        cases h : s.timerFc.timedOut s.now
+        · exact absurd ⟨h1, h⟩ hnw
+        · rfl
+      rw [h1] at hfs
+      cases hs : s.txState <;> simp only [hs] at hst hts <;> first | exact absurd rfl hst | skip
+      all_goals
+        hf_eval [hts, hfs, hR.consts.idle, hR.consts.wait, hR.consts.cts, hR.fcStart, hR.fcTo, hto]
+    · by_cases h0 : f.status = 0
+      · rw [h0] at hfs
+        cases hto : s.timerFc.timedOut s.now
+        · have hwc : ¬ (s.txState = .waitFc ∨ s.txState = .transmitCf) := fun h => hnc ⟨h0, hto, h⟩
+          cases hs : s.txState <;> simp only [hs] at hst hts hwc <;> first | exact absurd rfl hst | simp at hwc | skip
+          all_goals
+            hf_eval [hts, hfs, hR.consts.idle, hR.consts.wait, hR.consts.cts, hR.fcStart, hR.fcTo, hto, hR.consts.waitFc,
+              hR.consts.transmitCf]
+        · cases hs : s.txState <;> simp only [hs] at hst hts <;> first | exact absurd rfl hst | skip
+          all_goals
+            hf_eval [hts, hfs, hR.consts.idle, hR.consts.wait, hR.consts.cts, hR.fcStart, hR.fcTo, hto]
+      · have h1' : ¬ (f.status : Int) = 1 := by omega
+        have h0' : ¬ (f.status : Int) = 0 := by omega
+        cases hs : s.txState <;> simp only [hs] at hst hts <;> first | exact absurd rfl hst | skip
+        all_goals
+          hf_eval [hts, hfs, hR.consts.idle, hR.consts.wait, hR.consts.cts, h1', h0', h1, h0]
+  · unfold State.handleFc
+    rw [if_neg hst]
+    have e1 : ¬ ((f.status = 1 && !(s.timerFc.timedOut s.now)) = true) := by
+      intro h; simp at h; exact hnw h
+    have e2 : ¬ ((f.status = 0 && !(s.timerFc.timedOut s.now) && (s.txState = .waitFc || s.txState = .transmitCf)) = true) := by
+      intro h; simp at h; exact hnc ⟨h.1.1, h.1.2, h.2⟩
+    rw [if_neg e1, if_neg e2]
+
+/-- **Flow Control handling**: the statement is the model's `handleFc` -/
+theorem handleFc_stmt (s : State) (env : Env) (f : FcFrame) (hR : Rep env s) (hL : FcLoc env f) :
+    ∃ env', execStmt (txM s) env hfStmt = .ok (.next env') ∧ Rep env' (s.handleFc f) ∧ Frame [] env env' := by
+  by_cases hst : s.txState = .idle
+  · exact handleFc_idle s env f hR hst
+  · by_cases hw : f.status = 1 ∧ s.timerFc.timedOut s.now = false
+    · exact handleFc_wait s env f hR hL hst hw.1 hw.2
+    · by_cases hc : f.status = 0 ∧ s.timerFc.timedOut s.now = false ∧ (s.txState = .waitFc ∨ s.txState = .transmitCf)
+      · exact handleFc_cts s env f hR hL hc.1 hc.2.1 hc.2.2
+      · obtain ⟨h1, h2⟩ := handleFc_other s env f hR hL hst hw hc
+        exact ⟨env, h1, by rw [h2]; exact hR, Frame.refl _ _⟩
 
 end Isotp.PyAgree.Tx
